@@ -1033,6 +1033,20 @@ func (e *Env) specCall(sf *SpecFunc, args []Expr) TV {
 		}
 		r.Ty = rt
 	}
+	// long closed results are named once and reused (keeps queries small)
+	if rt != nil && len(r.T) > 160 && !strings.Contains(r.T, "!q") && !strings.Contains(r.T, "|k!") && !strings.Contains(r.T, "|r!") {
+		root := vc.r()
+		if root.memo == nil {
+			root.memo = map[string]string{}
+		}
+		if n, ok := root.memo[r.T]; ok {
+			r.T = n
+		} else {
+			n := vc.define("sf_"+sf.Name, vc.pre.sortOf(rt), r.T)
+			root.memo[r.T] = n
+			r.T = n
+		}
+	}
 	return r
 }
 
